@@ -168,9 +168,16 @@ class PropsStream:
             return rng.choice([1, 127, 128, 16383, 16384, 2097151, 2097152, 268435455])
         if ty == wire.BIN:
             return bytes(rng.randrange(256) for _ in range(rng.choice([0, 1, 9])))
+        def text():
+            # mostly short; sometimes long enough to push the block over the 1- and 2-byte length-prefix boundaries
+            x = rng.random()
+            if x < 0.82:
+                return rng.choice(UNI).encode()
+            n = rng.choice([100, 120, 127, 128, 200, 400]) if x < 0.985 else rng.choice([16300, 16384, 17000])
+            return (rng.choice(UNI).encode() * (n // max(1, len(rng.choice(UNI).encode())) + 1))[:n].decode("utf-8", "ignore").encode()
         if ty == wire.STR:
-            return rng.choice(UNI).encode()
-        return (rng.choice(UNI).encode(), rng.choice(UNI).encode())
+            return text()
+        return (text(), text())
 
     def real(self, case):
         obs = []
